@@ -177,6 +177,44 @@ def splitSpec (e : Char) (d : Str) (tr : Bool) : Str → List Str → List Str
     if run e p % 2 = 1 then splitSpec e d tr (pre ++ p.dropLast ++ d) (q :: rest)
     else (pre ++ halveIf tr e p) :: splitSpec e d tr [] (q :: rest)
 
+/-! ### the character-level reference (real cuts are counted) -/
+
+/-- **Character-level reference of `split_with_escape`.**  One pass over the text, left to right;
+`cur` is the item being collected, `lim` the number of REAL cuts still allowed (`none` = no limit),
+`skip` the characters of a delimiter just recognised that still have to be passed over.  An
+occurrence of the delimiter preceded — inside the current item — by an odd run of escapes stays in
+the item (that escape dropped) and does **not** use up the budget; otherwise it is a real cut: the
+item is closed (trailing run halved when trimming).  When the budget is used up the rest of the text
+is the last item, raw (only its trailing run is halved, like that of every item). -/
+def refAux (e : Char) (d : Str) (tr : Bool) : Option Nat → Nat → Str → Str → List Str
+  | _, _, cur, [] => [halveIf tr e cur]
+  | lim, skip + 1, cur, _ :: s => refAux e d tr lim skip cur s
+  | lim, 0, cur, c :: s =>
+    if startsWith (c :: s) d then
+      if !canSplit lim then [halveIf tr e (cur ++ c :: s)]
+      else if run e cur % 2 = 1 then refAux e d tr lim (d.length - 1) (cur.dropLast ++ d) s
+      else halveIf tr e cur :: refAux e d tr (decLim lim) (d.length - 1) [] s
+    else refAux e d tr lim 0 (cur ++ [c]) s
+
+/-- **The class of the open finding C17-j**, decided by the same scan: while real cuts are limited
+and still allowed, a delimiter is met that is escaped (the current item ends with an odd run). -/
+def escWithin (e : Char) (d : Str) : Option Nat → Nat → Str → Str → Bool
+  | _, _, _, [] => false
+  | lim, skip + 1, cur, _ :: s => escWithin e d lim skip cur s
+  | lim, 0, cur, c :: s =>
+    if startsWith (c :: s) d then
+      if !canSplit lim then false
+      else if run e cur % 2 = 1 then (lim.isSome || escWithin e d lim (d.length - 1) (cur.dropLast ++ d) s)
+      else escWithin e d (decLim lim) (d.length - 1) [] s
+    else escWithin e d lim 0 (cur ++ [c]) s
+
+/-- the reference with the argument conventions of `splitWithEscape` -/
+def splitRef (s d : Str) (m : Nat) (esc : Option Char) (tr : Bool) : PyM (List Str) :=
+  if d = [] then .error .ValueError else
+  match esc with
+  | none => .ok (splitMax d m s)
+  | some e => .ok (refAux e d tr (limOf m) 0 [] s)
+
 /-! ### `deserialize_list`, `deserialize_key_value`, `deserialize_dict` -/
 
 /-- `deserialize_list(s, d, parse_empty=pe, escape_character=esc)` with the default `parse_item` -/
